@@ -165,8 +165,7 @@ class IRModule(nn.Module):
             elif k == "add_scalar":
                 v = T.add(a[0], p["c"])
             elif k == "iadd":
-                t = a[0] * 1.0
-                v = T.iadd(t, a[1])
+                v = T.iadd(a[0], a[1])     # in place on a[0], which the generator makes a fresh tensor
             elif k == "cross_entropy":
                 v = T.cross_entropy(a[0].flatten(0, 1), a[1].flatten())
             elif k == "mse_loss":
@@ -187,7 +186,8 @@ UNMAPPED = ["tanh", "relu", "mulc", "reshape", "neg"]
 
 def gen_program(rng: random.Random, n_ops: int, *, residuals: int = 2, wrappers: bool = True, attention: bool = True,
                 losses: bool = False, fan_out: bool = False, lists: bool = False, nonfloat: bool = False,
-                embedding: bool = False, multi_out: bool = False, plain_adds: bool = True) -> Program:
+                embedding: bool = False, multi_out: bool = False, plain_adds: bool = True,
+                side_paths: bool = False) -> Program:
     ops: List[Op] = []
     params: Dict[str, Tuple[int, ...]] = {}
     modules: Dict[str, Tuple[str, Tuple]] = {}
@@ -262,7 +262,15 @@ def gen_program(rng: random.Random, n_ops: int, *, residuals: int = 2, wrappers:
 
     blocks = residuals
     budget = n_ops
+    sides: List[int] = []
     while budget > 0:
+        if side_paths and rng.random() < 0.2 and len(sides) < 2:
+            # a side path computed here but joined only after all later blocks (it feeds no residual add)
+            sv = unary(cur)
+            if rng.random() < 0.5:
+                sv = unary(sv)
+            sides.append(sv)
+            budget -= 1
         if blocks > 0 and rng.random() < 0.5:
             blocks -= 1
             skip = cur
@@ -289,7 +297,13 @@ def gen_program(rng: random.Random, n_ops: int, *, residuals: int = 2, wrappers:
                 br = nvals() - 1
                 br = unary(br)
                 budget -= 3
-            ops.append(Op(rng.choice(["add", "add", "iadd"]), [skip, br] if rng.random() < 0.5 else [br, skip]))
+            pair = [skip, br] if rng.random() < 0.5 else [br, skip]
+            if rng.random() < 0.3:
+                # in-place add on a fresh copy of the first operand: `t = a * 1.0; t += b`
+                ops.append(Op("mulc", [pair[0]], {"c": 1.0}))
+                ops.append(Op("iadd", [nvals() - 1, pair[1]]))
+            else:
+                ops.append(Op("add", pair))
             cur = nvals() - 1
         else:
             r = rng.random()
@@ -311,6 +325,9 @@ def gen_program(rng: random.Random, n_ops: int, *, residuals: int = 2, wrappers:
             else:
                 cur = unary(cur)
             budget -= 1
+    for sv in sides:
+        ops.append(Op(rng.choice(["mul", "add"]), [cur, sv] if rng.random() < 0.5 else [sv, cur]))
+        cur = nvals() - 1
     outputs = [cur]
     if losses:
         kind = rng.choice(["mse_loss", "cross_entropy", "sum"])
@@ -439,7 +456,7 @@ def serialise(graph: torch.fx.Graph, meta_keys: Tuple[str, ...] = ()) -> List[Di
     out = []
     for n in nodes:
         d: Dict[str, Any] = {"op": n.op, "target": target_name(n.target), "args": [arg(a) for a in n.args],
-                             "kwargs": [[k, arg(v)] for k, v in n.kwargs.items()]}
+                             "kwargs": sorted([[k, arg(v)] for k, v in n.kwargs.items()], key=lambda kv: kv[0])}
         for mk in meta_keys:
             if mk in n.meta:
                 d[mk] = n.meta[mk]
